@@ -277,7 +277,11 @@ def rule_metarewrite(P) -> RuleResult:
                 if isinstance(e.func, ast.Name) and e.func.id in st and isinstance(st[e.func.id], finite.Sym) \
                         and st[e.func.id].name.startswith('OP'):
                     return {'OP0': None if _cn else finite.Sym('CONTAINER'), 'OP1': finite.Sym('KEY'), 'OP2': D}[st[e.func.id].name]
-                if (f.endswith('.get') or f.endswith('.setdefault')) and isinstance(e.func, ast.Attribute):
+                # the lookup method bound to a local first: `lookup = obj.get` ... `lookup(key)`
+                bound = st.get(e.func.id) if isinstance(e.func, ast.Name) else None
+                if isinstance(bound, finite.Sym) and bound.name in ('BOUND.get', 'BOUND.setdefault'):
+                    f = bound.name
+                if (f.endswith('.get') or f.endswith('.setdefault')) and (isinstance(e.func, ast.Attribute) or bound is not None):
                     args = [m.ev(a, st) for a in e.args]
                     if f.endswith('.setdefault'):
                         ops['writes'] = True
@@ -294,7 +298,12 @@ def rule_metarewrite(P) -> RuleResult:
                             st[t.id] = finite.Sym(f'OP{i}')
                         return st
                     return super().stmt(s_, st)
-            mach = M(call=callh, contains=lambda l, c, st, _p=present: _p, names={'self': finite.Sym('self'), call.params[1]: finite.Sym('row')})
+            def exprh(e, st, m):
+                if isinstance(e, ast.Attribute) and e.attr in ('get', 'setdefault'):
+                    m.ev(e.value, st)
+                    return finite.Sym('BOUND.' + e.attr)
+                return NotImplemented
+            mach = M(call=callh, expr=exprh, contains=lambda l, c, st, _p=present: _p, names={'self': finite.Sym('self'), call.params[1]: finite.Sym('row')})
             try:
                 mach.run(body_without_docstring(call.node), {})
                 got = None
@@ -318,7 +327,9 @@ def rule_metarewrite(P) -> RuleResult:
     # open/close selection from the (open, close) pair; NULL default: on terms
     from ..symex import Sym as _S, T as _T, Engine as _E, show as _sh
     qe = P.module(QE)
-    CTX, ACC, KEY, OPEN, CLOSE = _S('CTX'), _S('ACC'), _S('KEY'), _S('OPEN'), _S('CLOSE')
+    CTX, ACC, OPEN, CLOSE = _S('CTX'), _S('ACC'), _S('OPEN'), _S('CLOSE')
+    # the key given is a string of undecided truth ('' is a key like any other: only a key left out means "the whole dict")
+    KEY = _T('attr', (_S('ARGUMENTS'), 'key'))
     directory = _T('attr', (_T('item', (_T('attr', (CTX, 'tables')), 'accounts')), 'accounts'))
     cases = [('open_date', False, lambda o, c: _T('attr', (o, 'date')) if o is not None else None, 0),
              ('close_date', False, lambda o, c: _T('attr', (c, 'date')) if c is not None else None, 1),
@@ -355,7 +366,16 @@ def rule_metarewrite(P) -> RuleResult:
             if with_key:
                 env[f.params[2]] = KEY
             want = want_f(*pair) if pair is not None else None
-            for p in _E(P, on_call=on_call, on_item=on_item).paths(f, env):
+            all_paths = []
+            for key_truth in ((True, False) if with_key else (True,)):
+                def oracle_k(term, ex, _t=key_truth):
+                    if term == KEY:
+                        return _t
+                    if isinstance(term, _T) and term.op == 'cmp' and term.args[0] in ('is', 'is not') and term.args[1] == KEY and term.args[2] is None:
+                        return term.args[0] == 'is not'
+                    return None
+                all_paths += _E(P, on_call=on_call, on_item=on_item, oracle=oracle_k).paths(f, env)
+            for p in all_paths:
                 if not good:
                     break
                 if p.decisions:
